@@ -994,5 +994,33 @@ def r12_19(ctx):
     return r
 
 
+def r12_20(ctx):
+    """'ordered channels deliver in submission order' (incl. SSN wrap-around): a FORWARD-TSN names, per stream, the SSN up
+    to which messages were abandoned, and the receiver moves the stream's expected SSN past it. The per-stream state
+    (InboundStream) is created lazily by the first completely received ordered message - so for a stream whose FIRST
+    message is the abandoned one there is none yet, and a handler that only advances streams it finds ignores the skip:
+    every later message waits for SSN 0, and the message that carries SSN 0 again after 65536 messages is delivered in
+    front of them. Decided: in handle_forward_tsn the stream advanced by advance_ssn_to comes from an inserting lookup
+    (entry().or_insert_with / or_default), not from get / get_mut."""
+    r = RuleResult("R12.20", "K6", "a FORWARD-TSN advances the SSN of every stream it names, also one that has delivered nothing yet")
+    b = ctx.body("transports::sctp::SctpInner::handle_forward_tsn::{closure#0}")
+    r.scope.append(b.name)
+    sites = [(bi, t) for bi, t, p in b.calls() if p and p.endswith("InboundStream::advance_ssn_to")]
+    r.need("advance_ssn_to calls in handle_forward_tsn", len(sites), 1)
+    for bi, t in sites:
+        a0 = b.term_operand(t["a"][0])
+        terms = [a0] + list(core.expand_vars(b, a0, depth=3))
+        inserting = any(mir.has(x, lambda z: z[0] == "call" and z[1].endswith(("::or_insert_with", "::or_insert", "::or_default"))) for x in terms)
+        finding = any(mir.has(x, lambda z: z[0] == "call" and z[1].endswith(("HashMap::<K, V, S, A>::get_mut", "HashMap::<K, V, S, A>::get"))) for x in terms)
+        if inserting and not finding:
+            r.ok({"site": b.where(bi), "stream": "entry(..).or_insert_with(..)"})
+        else:
+            r.violate(b.name, "forward-tsn:unknown-stream-ignored", b.where(bi),
+                      "the skipped SSN is applied only to streams that already have receive state: when the first message of an ordered stream "
+                      "is the abandoned one the skip is lost - later messages wait for ever and the message reusing that SSN after a "
+                      "wrap-around is delivered out of order")
+    return r
+
+
 def run(ctx):
-    return [r12_1(ctx), r12_2(ctx), r12_2b(ctx), r12_3(ctx), r12_4(ctx), r12_5(ctx), r12_7(ctx), r12_8(ctx), r12_9(ctx), r12_10(ctx), r12_11(ctx), r12_12(ctx), r12_13(ctx), r12_14(ctx), r12_15(ctx), r12_16(ctx), r12_17(ctx), r12_18(ctx), r12_19(ctx)]
+    return [r12_1(ctx), r12_2(ctx), r12_2b(ctx), r12_3(ctx), r12_4(ctx), r12_5(ctx), r12_7(ctx), r12_8(ctx), r12_9(ctx), r12_10(ctx), r12_11(ctx), r12_12(ctx), r12_13(ctx), r12_14(ctx), r12_15(ctx), r12_16(ctx), r12_17(ctx), r12_18(ctx), r12_19(ctx), r12_20(ctx)]
